@@ -1078,6 +1078,19 @@ def r40_and_then(src, item, ed, opts):
     function); edits inside O, D and E still apply"""
     clos = {tuple(c["range"]): c for c in nodes_of(item, "closure")}
     for n in nodes_of(item, "methodcall"):
+        if n["method"] == "ok_or_else" and len(n["args"]) == 1:
+            # `O.ok_or_else(|| E)` -> `(match O { Some(v) => Ok(v), None => Err(E) })`: the definition of Option::ok_or_else
+            cn = clos.get(tuple(n["args"][0]["range"]))
+            if cn is None or cn["inputs"]:
+                continue
+            body = re.sub(r'"(?:[^"\\\\]|\\\\.)*"', '""', src.text(*cn["body"]))
+            if "?" in body or re.search(r"\breturn\b", body):
+                raise Unsupported("R40: `?`/`return` inside an ok_or_else closure")
+            ed.insert(n["range"][0], "(match ", "R40", prio=-(n["range"][1] - n["range"][0]))
+            ed.replace(n["receiver"][1], cn["body"][0], " { Some(vx_v) => Ok(vx_v), None => Err(", "R40")
+            ed.replace(cn["body"][1], n["range"][1], ") })", "R40")
+            ed.count("R40")
+            continue
         if n["method"] == "and_then" and len(n["args"]) == 1:
             ca, dflt = n["args"][0], None
         elif n["method"] == "map_or" and len(n["args"]) == 2:
